@@ -186,6 +186,11 @@ def check_case(ctx, case):
         if cls == "j9":
             sec["text"] = S.j9_occurrence(rng, sec)[0]
         secs.append(sec)
+    if cls == "type7" and any(s.get("sub") == "all-digit" for s in secs) and S.c07_leaky(f, "numeric", case["trail"]):
+        # an all-digit type-7 string is treated as numeric by netconan: in this form it hits C07's known
+        # numeric-secret-then-word finding (secret not recognised at all), which C09 presupposes away
+        ctx.count("skipped_c07_leaky_all_digit_type7")
+        return
     line, parts, _ = S.render(rng, f, [s["text"] for s in secs], quote=tuple(case["quote"]), trail=case["trail"],
                               u_is_secret=case.get("u_is_secret", False) and cls in ("text", "numeric", "hex", "type7"))
     fa = nc.af.FileAnonymizer(anon_pwd=True, anon_ip=False, salt=case["salt"])
